@@ -112,7 +112,7 @@ def _resume_runs(env: Env, out: Outcome, n: int, extra: list[dict]) -> None:
     for _ in range(n):
         spec = specgen.gen_wait_spec(rng)
         spec["externals"] = [e for e in spec["externals"] if e["op"] != "snapshot"]
-        spec["externals"].append({"op": "snapshot_stop", "after_quiet": rng.randint(0, 5)})
+        spec["externals"].append({"op": "snapshot_stop", "after_quiet": rng.choice([0, 0, 1, 1, 2, 3])})
         jobs.append((spec, rng.randrange(1 << 30), None, None))
     for spec, seed, a1, a2 in jobs:
         tr1 = live.run_spec(spec, seed=seed, replay_actions=a1)
@@ -142,7 +142,11 @@ def _resume_runs(env: Env, out: Outcome, n: int, extra: list[dict]) -> None:
         for nm, w in waiting:
             if w.timed_out and w.resolved_event is None:
                 raised = any(r[0] == "wait_timeout" and r[1] == nm and r[5]["wid"] == w.waiter_id for r in tr2.steps)
-                if not raised:
+                wuid = getattr(w.event, "uid", None)
+                replayed_to_end = any(r[0] == "exit" and r[1] == nm and r[2] == wuid and r[5].get("status") == "ok" for r in tr2.steps)
+                stuck = tr2.outcome[0] in ("cancelled", "deadlock") and any("stuck" in n for n in tr2.notes)
+                # the run may legitimately end (StopEvent from another step) before the replay gets to run
+                if not raised and (replayed_to_end or stuck):
                     out.violations.append(Violation("C10/resumed_timeout_lost",
                                                     f"step {nm}: waiter {w.waiter_id!r} had timed out before the snapshot; after resume the TimeoutError is never raised", case))
 
